@@ -127,4 +127,232 @@ Section Ext.
                 intros Hb. cbn [map app is_some dec_adds negb tl]. apply (IH _ _ _ _ _ _ Hx Er Hb).
         * cbn [bind]. discriminate.
   Qed.
+
+  Lemma norm_adds_none_gen common data : forall extra processed,
+    enc_adds encT res (common ++ extra) data = Ok processed -> existsb is_some processed = false ->
+    norm_adds encT normT res common data = [].
+  Proof.
+    induction common as [|[isgroup ms] common IH]; intros extra processed; cbn [app enc_adds norm_adds]; [reflexivity|].
+    destruct isgroup.
+    - destruct (enc_group encT res ms data) as [bs|x]; cbn [bind]; [|reflexivity].
+      destruct (enc_adds encT res (common ++ extra) data) as [rest_p|] eqn:Er; [|discriminate]. cbn [bind]. intros H.
+      rewrite Bool.orb_false_r in H. destruct (0 <? length bs)%nat.
+      + assert (processed = Some bs :: rest_p) by congruence. subst. cbn. discriminate.
+      + assert (processed = None :: rest_p) by congruence. subst. cbn [existsb is_some orb]. intros He.
+        cbn [app]. apply (IH _ _ Er He).
+    - destruct ms as [|m [|m' ms']]; try reflexivity.
+      destruct (enc_member encT res m data true) as [bs|x]; cbn [bind]; [|reflexivity].
+      destruct (enc_adds encT res (common ++ extra) data) as [rest_p|] eqn:Er; [|discriminate]. cbn [bind]. intros H.
+      destruct (lookup (m_name m) data) as [v|].
+      + rewrite Bool.orb_true_r in H. assert (processed = Some bs :: rest_p) by congruence. subst. cbn. discriminate.
+      + rewrite Bool.orb_false_r in H. destruct (0 <? length bs)%nat.
+        * assert (processed = Some bs :: rest_p) by congruence. subst. cbn. discriminate.
+        * assert (processed = None :: rest_p) by congruence. subst. cbn [existsb is_some orb]. intros He.
+          cbn [app]. apply (IH _ _ Er He).
+  Qed.
+
+  Lemma dec_additions_compat common extra_enc extra_dec data abits rest :
+    extra_enc = [] \/ extra_dec = [] ->
+    (1 <= length (common ++ extra_enc))%nat ->
+    enc_additions encT res (common ++ extra_enc) data = Ok (Some abits) ->
+    dec_additions decT (common ++ extra_dec) (abits ++ rest) = Ok (norm_adds encT normT res common data, rest).
+  Proof.
+    intros Hx Hne. unfold enc_additions, dec_additions.
+    destruct (enc_adds encT res (common ++ extra_enc) data) as [processed|] eqn:Ep; [|discriminate]. cbn [bind].
+    destruct (negb (existsb is_some processed)); [discriminate|].
+    destruct (enc_small_len (Z.of_nat (length (common ++ extra_enc)))) as [l|] eqn:El; [|discriminate]. cbn [bind].
+    destruct (enc_open_types processed) as [body|] eqn:Eb; [|discriminate]. cbn [bind]. intros H.
+    pose proof (enc_adds_length _ _ _ _ _ Ep) as Hlen.
+    set (pres := map is_some processed ++ repeat false (length (common ++ extra_enc) - length processed)) in *.
+    assert (abits = l ++ pres ++ body) by congruence. subst abits.
+    assert (Hn1 : 1 <= Z.of_nat (length (common ++ extra_enc))) by lia.
+    unfold rbind at 1. rewrite <- app_assoc. rewrite (read_small_len_rt _ _ _ Hn1 El).
+    assert (Hpl : length pres = length (common ++ extra_enc)).
+    { unfold pres. rewrite app_length, map_length, repeat_length. lia. }
+    unfold rbind at 1. rewrite Nat2Z.id. rewrite <- Hpl at 1. rewrite <- app_assoc. rewrite read_raw_app.
+    unfold pres. apply (dec_adds_compat _ _ _ _ _ _ _ _ Hx Ep Eb).
+  Qed.
+
+  (** SEQUENCE/SET: encoder knows [common ++ extra_enc], decoder [common ++ extra_dec] *)
+  Lemma dec_seq_compat root common extra_enc extra_dec data bs rest :
+    extra_enc = [] \/ extra_dec = [] ->
+    enc_seq encT res root (Some (common ++ extra_enc)) (VSeq data) = Ok bs ->
+    dec_seq decT root (Some (common ++ extra_dec)) (bs ++ rest)
+    = Ok (VSeq (norm_members normT res root data ++ norm_adds encT normT res common data), rest).
+  Proof.
+    intros Hx. unfold enc_seq, dec_seq.
+    destruct (enc_root encT res root data) as [r|] eqn:Er; [|discriminate]. cbn [bind].
+    assert (Hfalse : forall processed,
+               enc_adds encT res (common ++ extra_enc) data = Ok processed -> existsb is_some processed = false ->
+               (do* b <- read_bit; do* fs <- dec_root decT root;
+                if b then do* more <- dec_additions decT (common ++ extra_dec); rret (VSeq (fs ++ more))
+                else rret (VSeq fs)) ((false :: r) ++ rest)
+               = Ok (VSeq (norm_members normT res root data ++ norm_adds encT normT res common data), rest)).
+    { intros processed Hp He. cbn [app]. unfold rbind at 1. cbn [read_bit]. unfold rbind.
+      rewrite (dec_root_rt encT decT normT res HT _ _ _ _ Er).
+      rewrite (norm_adds_none_gen _ _ _ _ Hp He), app_nil_r. reflexivity. }
+    destruct (common ++ extra_enc) as [|a l] eqn:Eadds.
+    - intros H. assert (bs = false :: r) by congruence. subst bs.
+      apply (Hfalse []); reflexivity.
+    - destruct (enc_additions encT res (a :: l) data) as [[abits|]|] eqn:Ea; [| |discriminate]; cbn [bind].
+      + intros H. assert (bs = true :: r ++ abits) by congruence. subst bs. cbn [app]. unfold rbind at 1. cbn [read_bit].
+        unfold rbind. rewrite <- app_assoc. rewrite (dec_root_rt encT decT normT res HT _ _ _ _ Er).
+        rewrite <- Eadds in Ea.
+        assert (Hne : (1 <= length (common ++ extra_enc))%nat) by (rewrite Eadds; cbn [length]; lia).
+        rewrite (dec_additions_compat _ _ _ _ _ _ Hx Hne Ea). reflexivity.
+      + intros H. assert (bs = false :: r) by congruence. subst bs.
+        unfold enc_additions in Ea.
+        destruct (enc_adds encT res (a :: l) data) as [processed|] eqn:Ep; [|discriminate]. cbn [bind] in Ea.
+        destruct (existsb is_some processed) eqn:Ee; cbn [negb] in Ea.
+        * destruct (enc_small_len (Z.of_nat (length (a :: l)))); [|discriminate]. cbn [bind] in Ea.
+          destruct (enc_open_types processed); discriminate.
+        * apply (Hfalse processed); auto.
+  Qed.
 End Ext.
+
+(** ** The statements at the level of the type-directed codec *)
+Section ExtMain.
+  Variable numeric : bool.
+  Variable e : env.
+
+  (** forward: a version-2 encoding (additions [common ++ new]) decoded by
+      version 1 (additions [common]) gives the version-1 view of the value:
+      root components and the additions version 1 knows, unknown additions
+      dropped, and the rest of the input untouched. *)
+  Theorem uper_seq_forward f isset root common new data bs :
+    enc numeric e (S f) (TSeq isset root (Some (common ++ new))) (VSeq data) = Ok bs ->
+    forall rest,
+      dec numeric e (S f) (TSeq isset root (Some common)) (bs ++ rest)
+      = Ok (VSeq (norm_members (norm numeric e f) (resolve e f) root data ++
+                  norm_adds (enc numeric e f) (norm numeric e f) (resolve e f) common data), rest).
+  Proof.
+    cbn [enc dec]. intros H rest.
+    pose proof (dec_seq_compat (enc numeric e f) (dec numeric e f) (norm numeric e f) (resolve e f)
+                               (enc_dec_rt numeric e f) root common new [] data bs rest (or_intror eq_refl) H) as Hc.
+    rewrite app_nil_r in Hc. exact Hc.
+  Qed.
+
+  (** backward: a version-1 encoding decoded by version 2 gives the same value *)
+  Theorem uper_seq_backward f isset root common new data bs :
+    enc numeric e (S f) (TSeq isset root (Some common)) (VSeq data) = Ok bs ->
+    forall rest,
+      dec numeric e (S f) (TSeq isset root (Some (common ++ new))) (bs ++ rest)
+      = Ok (norm numeric e (S f) (TSeq isset root (Some common)) (VSeq data), rest).
+  Proof.
+    cbn [enc dec norm]. intros H rest. unfold norm_seq.
+    rewrite <- (app_nil_r common) in H.
+    apply (dec_seq_compat (enc numeric e f) (dec numeric e f) (norm numeric e f) (resolve e f)
+                          (enc_dec_rt numeric e f) root common [] new data bs rest (or_introl eq_refl) H).
+  Qed.
+End ExtMain.
+
+(** ** CHOICE alternatives and ENUMERATED items added after the marker *)
+
+Lemma find_alt_app name (l1 l2 : list (member_of ty)) : forall i,
+  find_alt name (l1 ++ l2) i =
+  match find_alt name l1 i with
+  | Some r => Some r
+  | None => find_alt name l2 (i + Z.of_nat (length l1))
+  end.
+Proof.
+  induction l1 as [|x l1 IH]; intros i; cbn [app find_alt length].
+  - f_equal. lia.
+  - destruct (String.eqb (m_name x) name); [reflexivity|]. rewrite IH. destruct (find_alt name l1 (i + 1)); [reflexivity|].
+    f_equal. lia.
+Qed.
+
+Section ExtChoice.
+  Variable numeric : bool.
+  Variable e : env.
+
+  (** known alternative: both versions produce the same bits, so each decodes the other's *)
+  Lemma enc_choice_known f root common new name x :
+    (find_alt name root 0 <> None \/ find_alt name common 0 <> None) ->
+    enc_choice (enc numeric e f) root (Some (common ++ new)) (VChoice name x)
+    = enc_choice (enc numeric e f) root (Some common) (VChoice name x).
+  Proof.
+    intros H. unfold enc_choice. destruct (find_alt name root 0) as [[i m]|]; [reflexivity|].
+    rewrite find_alt_app. destruct (find_alt name common 0) as [[j m]|]; [reflexivity|].
+    destruct H as [H|H]; congruence.
+  Qed.
+
+  Theorem uper_choice_known_alternative f root common new name x bs :
+    (find_alt name root 0 <> None \/ find_alt name common 0 <> None) ->
+    (enc numeric e (S f) (TChoice root (Some (common ++ new))) (VChoice name x) = Ok bs ->
+     forall rest, dec numeric e (S f) (TChoice root (Some common)) (bs ++ rest)
+                  = Ok (norm numeric e (S f) (TChoice root (Some common)) (VChoice name x), rest)) /\
+    (enc numeric e (S f) (TChoice root (Some common)) (VChoice name x) = Ok bs ->
+     forall rest, dec numeric e (S f) (TChoice root (Some (common ++ new))) (bs ++ rest)
+                  = Ok (norm numeric e (S f) (TChoice root (Some (common ++ new))) (VChoice name x), rest)).
+  Proof.
+    intros Hk. split; intros H rest.
+    - apply enc_dec_rt. cbn [enc] in *. rewrite <- (enc_choice_known f root common new name x Hk). exact H.
+    - apply enc_dec_rt. cbn [enc] in *. rewrite (enc_choice_known f root common new name x Hk). exact H.
+  Qed.
+
+  (** unknown alternative: version 1 reports "absent" and skips exactly the open type *)
+  Theorem uper_choice_unknown_alternative f root common new name x bs :
+    find_alt name root 0 = None -> find_alt name common 0 = None ->
+    enc numeric e (S f) (TChoice root (Some (common ++ new))) (VChoice name x) = Ok bs ->
+    forall rest, dec numeric e (S f) (TChoice root (Some common)) (bs ++ rest) = Ok (VUnknownChoice, rest).
+  Proof.
+    intros Hr Hc. cbn [enc dec]. unfold enc_choice, dec_choice. rewrite Hr, find_alt_app, Hc.
+    destruct (find_alt name new (0 + Z.of_nat (length common))) as [[i m]|] eqn:Ea; [|discriminate].
+    destruct (enc numeric e f (m_ty m) x) as [body|] eqn:Eb; [|discriminate]. cbn [bind].
+    destruct (enc_small_nonneg i) as [idx|] eqn:Ei; [|discriminate]. cbn [bind].
+    unfold enc_len_single.
+    destruct (Z.of_nat (length (pad8 body) / 8) <? 16384) eqn:El; [|discriminate]. cbn [bind]. intros H rest.
+    assert (bs = true :: idx ++ enc_len_short (Z.of_nat (length (pad8 body) / 8)) ++ pad8 body) by congruence.
+    subst bs. cbn [app]. unfold rbind at 1. cbn [read_bit negb].
+    destruct (find_alt_spec _ _ _ _ _ Ea) as (Hrange & _ & _).
+    unfold rbind at 1. rewrite <- app_assoc. rewrite (read_small_nonneg_rt i idx _ ltac:(lia) Ei).
+    unfold rbind at 1. rewrite <- app_assoc. rewrite read_len_short by lia.
+    assert (Hnone : nth_z common i = None).
+    { unfold nth_z. destruct ((i <? 0) || (Z.of_nat (length common) <=? i)) eqn:E; [reflexivity|lia]. }
+    rewrite Hnone. destruct (pad8_length body) as (q & Hq & _ & Hdiv).
+    unfold rbind. unfold skip_bits. rewrite Hdiv.
+    replace (Z.to_nat (8 * Z.of_nat q)) with (length (pad8 body)) by lia. rewrite app_length.
+    destruct (length (pad8 body) + length rest <? length (pad8 body))%nat eqn:E; [lia|].
+    rewrite skipn_app, Nat.sub_diag. cbn [skipn]. rewrite skipn_all. reflexivity.
+  Qed.
+End ExtChoice.
+
+Lemma index_of_last_app numeric d (l1 l2 : list (string * Z)) : forall i,
+  index_of_last numeric d (l1 ++ l2) i =
+  match index_of_last numeric d l2 (i + Z.of_nat (length l1)) with
+  | Some j => Some j
+  | None => index_of_last numeric d l1 i
+  end.
+Proof.
+  induction l1 as [|x l1 IH]; intros i; cbn [app index_of_last length].
+  - replace (i + Z.of_nat 0) with i by lia. destruct (index_of_last numeric d l2 i); reflexivity.
+  - rewrite IH. replace (i + 1 + Z.of_nat (length l1)) with (i + Z.of_nat (S (length l1))) by lia.
+    destruct (index_of_last numeric d l2 (i + Z.of_nat (S (length l1)))); reflexivity.
+Qed.
+
+(** ENUMERATED: an item version 1 does not know decodes as "absent" (None);
+    an item both know has the same bits in both versions. *)
+Theorem uper_enum_unknown_item numeric root adds new d bs :
+  index_of_last numeric d (sort_by_value root) 0 = None ->
+  index_of_last numeric d new (Z.of_nat (length adds)) <> None ->
+  enc_enum numeric root (Some (adds ++ new)) d = Ok bs ->
+  forall rest, read_enum numeric root (Some adds) (bs ++ rest) = Ok (VNone, rest).
+Proof.
+  intros Hr Hn. unfold enc_enum, read_enum. rewrite Hr, index_of_last_app. cbn [Z.add].
+  destruct (index_of_last numeric d new (Z.of_nat (length adds))) as [j|] eqn:Ej; [|congruence].
+  destruct (enc_small_nonneg j) as [r|] eqn:Es; [|discriminate]. cbn [bind]. intros H rest.
+  assert (bs = true :: r) by congruence. subst bs. cbn [app]. unfold rbind at 1. cbn [read_bit negb].
+  destruct (index_of_last_spec _ _ _ _ _ Ej) as (Hrange & _).
+  unfold rbind. rewrite (read_small_nonneg_rt j r rest ltac:(lia) Es).
+  assert (Hnone : nth_z adds j = None).
+  { unfold nth_z. destruct ((j <? 0) || (Z.of_nat (length adds) <=? j)) eqn:E; [reflexivity|lia]. }
+  rewrite Hnone. reflexivity.
+Qed.
+
+Theorem uper_enum_known_item numeric root adds new d :
+  index_of_last numeric d new (Z.of_nat (length adds)) = None ->
+  enc_enum numeric root (Some (adds ++ new)) d = enc_enum numeric root (Some adds) d.
+Proof.
+  intros Hn. unfold enc_enum. destruct (index_of_last numeric d (sort_by_value root) 0); [reflexivity|].
+  rewrite index_of_last_app. cbn [Z.add]. rewrite Hn. reflexivity.
+Qed.
